@@ -691,6 +691,7 @@ func main() {
 	nnest := flag.Int("nnest", 200, "nested-hold probes (a goroutine holding the keys of two calls)")
 	probePairs := flag.Int("probepairs", 60, "pairs probed per long list")
 	nlong := flag.Int("nlong", 0, "plans with long runs (lock/unlock cycles, nested read locks) around counter widths")
+	nretain := flag.Int("nretain", 0, "retention probes (heap kept per key after lock/unlock of many distinct keys)")
 	nsim := flag.Int("nsim", 0, "free-running rounds in which several holders unlock at one instant")
 	only := flag.String("only", "", "restrict to variants containing one of these comma-separated fragments (e.g. \"g-,gx-\" = sharded groups only)")
 	flag.Parse()
@@ -753,6 +754,13 @@ func main() {
 	}
 	for i := 0; i < *nlong && len(variants) > 0; i++ {
 		runPlan(w, rng, "long", variants[(i*5+int(*seed))%len(variants)], shardsL[rng.Intn(4)], 4, longPlan(rng))
+	}
+	for i := 0; i < *nretain; i++ {
+		v := retainVariants[(i+int(*seed))%len(retainVariants)]
+		if *only != "" && !strings.Contains(strings.Join(variants, ","), v) {
+			continue
+		}
+		runRetain(w, rng, v, shardsL[rng.Intn(4)], 40000)
 	}
 	w.Close()
 	sw := tr.Create(*stress)
